@@ -167,7 +167,16 @@ class replace(repo_ops.replace, install, uninstall):
         # can't leave a half removed pkg listed.
         update_mtime(self.repo.location)
         self._hide_data()
-        install.finalize_data(self)
+        try:
+            install.finalize_data(self)
+        except BaseException:
+            # moving the new entry in failed: put the old one back rather
+            # than leaving the pkg unlisted.
+            try:
+                os.rename(self.tmp_remove_path, self.remove_path)
+            except OSError as e:
+                logger.error(f"failed restoring {self.remove_path!r}: {e}")
+            raise
         shutil.rmtree(self.tmp_remove_path)
         return True
 
